@@ -346,6 +346,8 @@ pub struct BiffChoices {
     pub sst_plan: SplitPlan,
     /// rich runs / ext data on SST strings
     pub sst_decor: bool,
+    /// unreferenced filler strings at the start of the SST (LABELSST indices start there)
+    pub sst_pad: usize,
 }
 
 impl Default for BiffChoices {
@@ -360,6 +362,7 @@ impl Default for BiffChoices {
             filepass: None,
             sst_plan: SplitPlan::default(),
             sst_decor: false,
+            sst_pad: 0,
         }
     }
 }
@@ -376,6 +379,7 @@ impl BiffChoices {
             filepass: None,
             sst_plan: SplitPlan { random_pct: *rng.pick(&[0, 0, 2, 10]), wide_after_cut: rng.bool(), ..Default::default() },
             sst_decor: rng.chance(1, 3),
+            sst_pad: 0,
         }
     }
 }
@@ -414,7 +418,7 @@ pub fn encode(book: &MBook, ch: &BiffChoices, extra: &BiffExtra, rng: &mut Rng) 
     let mut cell_feats = BTreeMap::new();
     let mut bump = |k: &str| *counts.entry(k.to_string()).or_insert(0) += 1;
     // ---- shared strings
-    let mut sst: Vec<SstStr> = vec![];
+    let mut sst: Vec<SstStr> = (0..ch.sst_pad).map(|i| SstStr::plain(&format!("pad{}", i))).collect();
     let mut sst_index: BTreeMap<(usize, Pos), u32> = BTreeMap::new();
     let mut total_refs = 0u32;
     for (si, sh) in book.sheets.iter().enumerate() {
